@@ -257,6 +257,31 @@ class SimSourceError(Exception):
     pass
 
 
+class ReadintoSource(SimSource):
+    """File personality that also offers readinto() (io.BytesIO and real
+    files do): fills at most what the plan says, never more than the buffer
+    holds, and counts as one read."""
+
+    current_req = None      # what the reader asked the wrapper for
+
+    def readinto(self, b):
+        self._fault_check()
+        mv = memoryview(b)
+        want = len(mv)
+        if self.current_req is not None and want > self.current_req and \
+                self.k < len(self.plan):
+            # asked for more than the reader wanted: a file hands out the
+            # extra as well
+            self.plan[self.k] += want - self.current_req
+        chunk = self._take(want)
+        mv[:len(chunk)] = chunk
+        self.readinto_calls = getattr(self, 'readinto_calls', 0) + 1
+        return len(chunk)
+
+    def readable(self):
+        return True
+
+
 class NoCloseSource(SimSource):
     """A source without a close attribute at all."""
     close = property()
